@@ -55,13 +55,14 @@ TSetGridAttr == IsEvent("SetGridAttr") /\ SetGridAttr(Ev.level, Ev.scheme) /\ Ju
 \* SetGridAttr requires a change of value, so this case is the same transition with the values kept
 TTouchGridAttr ==
   /\ IsEvent("SetGridAttr") /\ Ev.level = grids.level /\ Ev.scheme = grids.scheme
-  /\ Tick /\ ks.decorated
+  /\ TickF /\ ks.decorated
   /\ grids' = [grids EXCEPT !.content = 0, !.indexer = 0]
   /\ err' = "ok" /\ UNCHANGED <<ks, ni, nid, last>> /\ Judge(Ev.post)
 TBuild == IsEvent("Build") /\ Build(Ev.withmol) /\ Judge(Ev.post)
 TInitGrids == IsEvent("InitGrids") /\ InitGrids /\ Judge(Ev.post)
 TNrCall == IsEvent("NrCall") /\ Ev.ns = NSpin(ks.spin) /\ NrCall(Ev.ns) /\ Judge(Ev.post)
 TReset == IsEvent("Reset") /\ Reset(Ev.mol) /\ Judge(Ev.post)
+TMoveInPlace == IsEvent("MoveInPlace") /\ MoveInPlace /\ Judge(Ev.post)
 TDensityFit == IsEvent("DensityFit") /\ DensityFit /\ Judge(Ev.post)
 TToOtherSpin == IsEvent("ToOtherSpin") /\ ToOtherSpin /\ Judge(Ev.post)
 TUnsupported == IsEvent("Unsupported") /\ Unsupported(Ev.meth) /\ Judge(Ev.post)
@@ -72,9 +73,9 @@ TNextRec == /\ i <= Len(Recs) /\ l = Len(Rec.events) + 1 /\ i' = i + 1 /\ l' = 1
             /\ ks' = [decorated |-> FALSE, spin |-> "R", df |-> FALSE, fam |-> "nofam", mol |-> CHOOSE m \in Mols : TRUE, copies |-> 0]
             /\ grids' = [oid |-> 1, cls |-> "Grids", level |-> CHOOSE x \in Levels : TRUE, scheme |-> CHOOSE s \in Schemes : TRUE,
                          mol |-> CHOOSE m \in Mols : TRUE, content |-> 0, indexer |-> 0]
-            /\ ni' = None /\ nid' = 1 /\ last' = None /\ err' = "ok" /\ steps' = 0
+            /\ ni' = None /\ nid' = 1 /\ last' = None /\ err' = "ok" /\ steps' = 0 /\ geom' = [m \in Mols |-> 0]
 TNext == TConfigure \/ TDecorate \/ TRedecorate \/ TSetMlxc \/ TSetGridAttr \/ TTouchGridAttr \/ TBuild \/ TInitGrids
-         \/ TNrCall \/ TReset \/ TDensityFit \/ TToOtherSpin \/ TUnsupported \/ TGrad \/ TNextRec
+         \/ TNrCall \/ TReset \/ TMoveInPlace \/ TDensityFit \/ TToOtherSpin \/ TUnsupported \/ TGrad \/ TNextRec
 TSpec == TInit /\ [][TNext]_tvars
 
 \* ---- named verdicts
